@@ -9,7 +9,7 @@ META = {
     'technique': 'shape-case abstract interpretation (heap of symbolic field/paragraph objects) of the re-ordering, replace/delete and '
                  'paragraph insert/append methods of the format-preserving document classes, compared case by case with a reference list '
                  'model; effect-ordering rule (the final-newline helper runs before the first mutation and on the right element) observed '
-                 'on the same interpreter; direction table for bulk relocation as a cross-check; path rule (locals substituted away) for the occurrence looked up by set_field_from_raw_string; append/insert interpreted on documents ending with an empty paragraph, an unterminated comment or an unterminated blank line; obligations on set_kvpair_element (the element that is set is terminated; replace-all by a later occurrence keeps it attached) and a frame obligation on delete (no other field changes); ownership scenario: an element placed in another paragraph keeps its parent link when the field is removed or replaced here',
+                 'on the same interpreter; direction table for bulk relocation as a cross-check; path rule (locals substituted away) for the occurrence looked up by set_field_from_raw_string; append/insert interpreted on documents ending with an empty paragraph, an unterminated comment or an unterminated blank line; obligations on set_kvpair_element (the element that is set is terminated; replace-all by a later occurrence keeps it attached) and a frame obligation on delete (no other field changes); ownership scenario: an element placed in another paragraph keeps its parent link when the field is removed or replaced here; the final-newline helper interpreted on paragraphs whose last field is a later occurrence of a repeated name; copies of paragraphs are free paragraphs',
     'level_text': 'Static decision per shape case (paragraphs with unique and with duplicated names; single, indexed and bulk relocation '
                   'relative to start, end and reference fields at every position; documents with 0..2 paragraphs, trailing separators and '
                   'free comments): the resulting element order equals the reference model, the per-name occurrence lists are in document '
@@ -984,6 +984,8 @@ def r6_replaced_occurrence(rep, src):
     keyp = f.params()[1]
     ps = paths.function_paths(f.node, max_paths=20000)
     rep.analysed['paths'] += len(ps)
+    from . import C05 as _C05
+    helpers_ = _C05.lookup_helper_names(src)
     n = 0
     bad = None
     for p_ in ps:
@@ -992,7 +994,8 @@ def r6_replaced_occurrence(rep, src):
         seen = set()
         for tr in trees:
             for c in ast.walk(tr):
-                if isinstance(c, ast.Call) and isinstance(c.func, ast.Attribute) and c.func.attr == 'get_kvpair_element' and norm(c.func.value) == 'self' and c.args:
+                if isinstance(c, ast.Call) and isinstance(c.func, ast.Attribute) and (c.func.attr == 'get_kvpair_element' or c.func.attr in helpers_) \
+                        and norm(c.func.value) == 'self' and c.args:
                     k = norm(c.args[0])
                     if k in seen:
                         continue
